@@ -81,7 +81,9 @@ def run_span(all_rows, r):
 
 
 KINDS_ALL = ("rowmap", "filter", "merge2", "multi", "loop", "overlap", "overlapm", "downchunk", "exhaust",
-             "recorder")
+             "recorder", "cut")
+# 'mergeonly' (strax.MergeOnlyPlugin) has no v_<name> column of its own: leaf only, opted into per check
+KINDS_WITH_MERGEONLY = KINDS_ALL + ("mergeonly",)
 LAGGING = ("overlap", "overlapm", "downchunk", "exhaust")
 
 
@@ -127,6 +129,25 @@ def gen_graph(r, n_derived=(1, 5), n_sources=(1, 2), kinds=KINDS_ALL, n_rows=(0,
             m = r.choice([2, 3, 5])
             node = {"name": name, "kind": "filter", "dep": d, "m": m, "r": r.randrange(m)}
             kind_of[name], disjoint[name] = "k_" + name, disjoint[d]
+        elif kind == "cut":
+            d = r.choice(usable)
+            m = r.choice([2, 3])
+            name = f"c{i}"
+            node = {"name": name, "kind": "cut", "dep": d, "m": m, "r": r.randrange(m)}
+            kind_of[name], disjoint[name] = kind_of[d], disjoint[d]
+        elif kind == "mergeonly":
+            pairs = [(a, b) for a in usable for b in usable if a < b and kind_of[a] == kind_of[b]]
+            if not pairs:
+                continue
+            a, b = r.choice(pairs)
+            deps = [a, b]
+            third = [c for c in usable if c not in deps and kind_of[c] == kind_of[a]]
+            if third and r.random() < 0.3:
+                deps.append(r.choice(third))
+            r.shuffle(deps)
+            node = {"name": name, "kind": "mergeonly", "deps": deps}
+            kind_of[name], disjoint[name] = kind_of[a], disjoint[a]
+            leaf_only.add(name)
         elif kind == "merge2":
             pairs = [(a, b) for a in usable for b in usable if a < b and kind_of[a] == kind_of[b]]
             if not pairs:
